@@ -406,3 +406,30 @@ func (c *Ctx) ClearReplays() {
 		os.Remove(f)
 	}
 }
+
+// Parallel runs f(i) for i in [0,n) on the given number of goroutines (pure, crash-free work only).
+func Parallel(n, workers int, f func(i int)) {
+	if workers < 1 {
+		workers = 1
+	}
+	var wg sync.WaitGroup
+	next := int64(-1)
+	var mu sync.Mutex
+	for w := 0; w < workers; w++ {
+		wg.Add(1)
+		go func() {
+			defer wg.Done()
+			for {
+				mu.Lock()
+				next++
+				i := next
+				mu.Unlock()
+				if i >= int64(n) {
+					return
+				}
+				f(int(i))
+			}
+		}()
+	}
+	wg.Wait()
+}
